@@ -133,6 +133,10 @@ func init() {
 			add("round", c19Params{Script: "FFFFF", SlowFailMs: 1050}, true)
 			add("round", c19Params{Script: "FFFFS", SlowFailMs: 1050}, true)
 			add("round", c19Params{Script: "SFFFFF", SlowFailMs: 1100}, true)
+			for k := 0; k < 2; k++ {
+				raw, _ := json.Marshal(c19Params{IntervalMs: []int{5, 20}[k]})
+				out = append(out, drv.Scenario{Kind: "stop-slow-ping", Seed: seed, Params: raw, TimeoutS: 120, Solo: true})
+			}
 			// Stop() right after Start(), before the check goroutine has run at all (one processor): nothing may be pinged afterwards
 			for k := 0; k < 3; k++ {
 				raw, _ := json.Marshal(c19Params{Script: "SSSS", IntervalMs: []int{1, 5, 20}[k]})
@@ -187,7 +191,7 @@ func init() {
 					stopped = true
 				}
 			}
-			if sc.Kind == "stop" || sc.Kind == "calls" || sc.Kind == "stop-at-once" {
+			if sc.Kind == "stop" || sc.Kind == "calls" || sc.Kind == "stop-at-once" || sc.Kind == "stop-slow-ping" {
 				base.Verdict = drv.Violated
 				base.Clause = "stop-crash"
 				base.FindingKey = "C19/stop-crash"
@@ -258,6 +262,31 @@ func runC19(sc drv.Scenario) drv.Result {
 		}
 		res.Events["pings"] = pc.count()
 		res.Sample = map[string]any{"script": p.Script, "pings": pc.count(), "survived": true}
+	case "stop-slow-ping":
+		// Stop() arrives while a ping is in flight that takes longer than the configured ping timeout; a tick is pending behind
+		// it. Several trials: whether the loop would pick the pending tick after the cancellation is a coin flip.
+		trials := 6
+		for tnum := 0; tnum < trials; tnum++ {
+			pcs := &pingClient{script: "SSSSSSSS", after: make(chan int, 64), delay: 1500 * time.Millisecond}
+			h := couchbase.NewHealthCheck(cfg, pcs)
+			h.Start()
+			if !hx.WaitFor(5*time.Second, func() bool { return atomic.LoadInt32(&pcs.inflight) == 1 }) {
+				return drv.Result{Verdict: drv.Inconclusive, Detail: "no ping in flight"}
+			}
+			time.Sleep(50 * time.Millisecond)
+			if !callWithBound("Stop", h.Stop) {
+				return viol("stop-hang", "Stop() during a slow ping did not return within 15 s")
+			}
+			n := pcs.count()
+			time.Sleep(3300 * time.Millisecond)
+			if pcs.count() != n {
+				return viol("ping-after-stop", fmt.Sprintf("trial %d: Stop() arrived during a ping that took 1.5 s (ping timeout %v): %d ping(s) were issued after Stop() had returned", tnum, cfg.Timeout, pcs.count()-n))
+			}
+			res.Checks++
+		}
+		res.Nontrivial = true
+		res.Events["trials"] = trials
+		res.Sample = map[string]any{"calls": "Start, Stop during a 1.5 s ping", "trials": trials, "pings_after_stop": 0}
 	case "stop-at-once":
 		h := couchbase.NewHealthCheck(cfg, pc)
 		h.Start()
